@@ -427,7 +427,7 @@ func c08SeqPrepare(seed int64, flavour string) *c08SeqJob {
 	soft := flavour == "C08" || flavour == "C09" && rng.Intn(2) == 0
 	rows := genRows(rng, 5+rng.Intn(3), soft)
 	c := c08SeqCase{Seed: seed, Flavour: flavour, Soft: soft}
-	if rng.Intn(3) == 0 && flavour != "C09" {
+	if flavour != "C09" && (rng.Intn(3) == 0 || flavour == "C02" && rng.Intn(3) > 0) {
 		c.ModelKey = 1 + rng.Intn(3)
 	}
 	c.TxMode = []string{"default", "default", "skip", "prepare", "begin"}[rng.Intn(5)]
@@ -706,12 +706,15 @@ func c09JudgeEmptyWhere(r *Result, input interface{}, rejected bool, errText str
 }
 
 func init() {
-	for _, p := range []string{"C08", "C09"} {
+	for _, p := range []string{"C02", "C08", "C09"} {
 		p := p
 		register(p, func(r *Result, rng *rand.Rand, tier string) {
 			n := map[string]int{"quick": 220, "thorough": 4000, "search": 2500}[tier]
 			if p == "C09" {
-				n = map[string]int{"quick": 260, "thorough": 5000, "search": 2500}[tier]
+				n = map[string]int{"quick": 400, "thorough": 5000, "search": 2500}[tier]
+			}
+			if p == "C08" {
+				n = map[string]int{"quick": 400, "thorough": 5000, "search": 2500}[tier]
 			}
 			var jobs []*c08SeqJob
 			for i := 0; i < n && !expired(); i++ {
